@@ -175,6 +175,38 @@ Proof.
   apply saving_nonneg_of_optim_le_fixed. apply l2_optim_le_fixed. exact Hse.
 Qed.
 
+(** the L2 saving is sub-additive under splitting: the hypothesis under which CAPA / MVCAPA are
+    optimal (C03) holds for the built-in saving, column by column *)
+Theorem l2_saving_subadditive S1 s k e : (s < k)%nat -> (k < e)%nat ->
+  l2_saving_R S1 s e <= l2_saving_R S1 s k + l2_saving_R S1 k e.
+Proof.
+  intros Hsk Hke.
+  pose proof (len_pos s k Hsk) as Hnb. pose proof (len_pos k e Hke) as Hna.
+  rewrite !l2_saving_form by lia.
+  rewrite (len_split s k e) by lia.
+  set (nb := INR (k - s)) in *. set (na := INR (e - k)) in *.
+  set (A := S1 k - S1 s). set (B := S1 e - S1 k).
+  replace (S1 e - S1 s) with (A + B) by (unfold A, B; ring).
+  pose proof (l2_split_alg A B nb na Hnb Hna) as Hgap.
+  assert (Hc : 0 <= nb * na / (nb + na)).
+  { apply Rlt_le. apply Rdiv_lt_0_compat; [apply Rmult_lt_0_compat; assumption | lra]. }
+  assert (Hsq : 0 <= (nb * na / (nb + na)) * (A / nb - B / na) ^ 2).
+  { apply Rmult_le_pos; [exact Hc | apply pow2_ge_0]. }
+  lra.
+Qed.
+
+(** ... and the gap is exactly the squared CUSUM statistic's value, i.e. the L2 change score *)
+Theorem l2_saving_split_gap_is_change_score S1 S2 s k e : (s < k)%nat -> (k < e)%nat ->
+  l2_saving_R S1 s k + l2_saving_R S1 k e - l2_saving_R S1 s e
+  = change_score (l2_cost_optim_R S1 S2) s k e.
+Proof.
+  intros Hsk Hke.
+  pose proof (len_neq0 s k Hsk) as Hnb. pose proof (len_neq0 k e Hke) as Hna.
+  pose proof (len_neq0 s e ltac:(lia)) as Hn.
+  rewrite change_score_def, !l2_saving_form, !l2_optim_form by lia.
+  field. repeat split; assumption.
+Qed.
+
 (* ------------------------------------------------------------------------- *)
 (** * (J1) the squared CUSUM score is the L2 change score                     *)
 (* ------------------------------------------------------------------------- *)
@@ -213,7 +245,7 @@ Lemma cusum_form S1 s k e : (s < k)%nat -> (k < e)%nat ->
 Proof.
   intros Hsk Hke.
   pose proof (len_pos s k Hsk) as Hnb. pose proof (len_pos k e Hke) as Hna.
-  unfold cusum_score_R. rewrite ?mult_INR. rewrite ?(len_split s k e) by lia.
+  unfold cusum_score_R. rewrite ?mult_INR, ?plus_INR. rewrite ?(len_split s k e) by lia.
   set (nb := INR (k - s)) in *. set (na := INR (e - k)) in *.
   set (a := na / ((nb + na) * nb)). set (b := nb / ((nb + na) * na)).
   repeat match goal with
@@ -476,6 +508,75 @@ Proof.
 Qed.
 
 (* ------------------------------------------------------------------------- *)
+(** * (J6b) savings derived from costs are sub-additive under splitting        *)
+(* ------------------------------------------------------------------------- *)
+
+(** a fixed-parameter cost is ADDITIVE over adjacent intervals, the optimised cost satisfies the
+    split inequality: hence Saving(baseline_cost) is sub-additive -- the hypothesis of the CAPA
+    optimality theorem (C03) for every cost-derived saving *)
+Lemma saving_subadditive_of_parts Cf Co s k e :
+  Cf s e = Cf s k + Cf k e -> Co s k + Co k e <= Co s e ->
+  saving Cf Co s e <= saving Cf Co s k + saving Cf Co k e.
+Proof. intros Hadd Hsplit. rewrite !saving_def. lra. Qed.
+
+Theorem l2_fixed_additive S1 S2 mu s k e : (s <= k)%nat -> (k <= e)%nat ->
+  l2_cost_fixed_R S1 S2 mu s e = l2_cost_fixed_R S1 S2 mu s k + l2_cost_fixed_R S1 S2 mu k e.
+Proof.
+  intros Hsk Hke. rewrite !l2_fixed_form. rewrite (len_split s k e) by lia. ring.
+Qed.
+
+Theorem gvar_fixed_additive S1 S2 mu v s k e : (s <= k)%nat -> (k <= e)%nat -> v <> 0 ->
+  gaussian_var_cost_fixed_R S1 S2 mu v s e
+  = gaussian_var_cost_fixed_R S1 S2 mu v s k + gaussian_var_cost_fixed_R S1 S2 mu v k e.
+Proof.
+  intros Hsk Hke Hv. rewrite !gvar_fixed_form by exact Hv. rewrite (len_split s k e) by lia.
+  field. exact Hv.
+Qed.
+
+Theorem l2_cost_saving_subadditive S1 S2 mu s k e : (s < k)%nat -> (k < e)%nat ->
+  saving (l2_cost_fixed_R S1 S2 mu) (l2_cost_optim_R S1 S2) s e
+  <= saving (l2_cost_fixed_R S1 S2 mu) (l2_cost_optim_R S1 S2) s k
+     + saving (l2_cost_fixed_R S1 S2 mu) (l2_cost_optim_R S1 S2) k e.
+Proof.
+  intros Hsk Hke. apply saving_subadditive_of_parts.
+  - apply l2_fixed_additive; lia.
+  - apply l2_split; assumption.
+Qed.
+
+Theorem gvar_cost_saving_subadditive S1 S2 mu v s k e : (s < k)%nat -> (k < e)%nat -> v <> 0 ->
+  floor_var <= V S1 S2 s k -> floor_var <= V S1 S2 k e -> floor_var <= V S1 S2 s e ->
+  saving (gaussian_var_cost_fixed_R S1 S2 mu v) (gaussian_var_cost_optim_R S1 S2) s e
+  <= saving (gaussian_var_cost_fixed_R S1 S2 mu v) (gaussian_var_cost_optim_R S1 S2) s k
+     + saving (gaussian_var_cost_fixed_R S1 S2 mu v) (gaussian_var_cost_optim_R S1 S2) k e.
+Proof.
+  intros Hsk Hke Hv Hfb Hfa Hfn. apply saving_subadditive_of_parts.
+  - apply gvar_fixed_additive; [lia | lia | exact Hv].
+  - apply gvar_split; assumption.
+Qed.
+
+(** with the variance floor ACTIVE the Gaussian cost can violate the split inequality: two halves of
+    equal mean, one constant (variance floored up to 1e-16) and one of variance 2e-16 -- the pooled
+    variance is exactly the floor, and the two parts cost n/2 * ln 2 more than the whole.  (Stated on
+    the algebraic normal form: [W] is what the kernel computes for variance inputs [Vb Va Vn].) *)
+Theorem gvar_split_can_fail_at_the_floor :
+  let W (n V : R) := n * ln (2 * PI * Rmax V floor_var) + n in
+  exists nb na Vb Va Vn : R,
+    0 < nb /\ 0 < na /\ 0 <= Vb /\ 0 <= Va /\ nb * Vb + na * Va = (nb + na) * Vn /\
+    W (nb + na) Vn < W nb Vb + W na Va.
+Proof.
+  intros W. exists 1, 1, 0, (2 * floor_var), floor_var.
+  pose proof floor_var_pos as Hf. pose proof two_PI_pos as Hpi.
+  repeat split; try lra.
+  unfold W. rewrite (Rmax_right 0 floor_var) by lra.
+  rewrite (Rmax_left (2 * floor_var) floor_var) by lra.
+  rewrite (Rmax_left floor_var floor_var) by lra.
+  replace (2 * PI * (2 * floor_var)) with (2 * (2 * PI * floor_var)) by ring.
+  rewrite (ln_mult 2 (2 * PI * floor_var)) by (try lra; apply Rmult_lt_0_compat; lra).
+  assert (H2 : 0 < ln 2) by (rewrite <- ln_1; apply ln_increasing; lra).
+  lra.
+Qed.
+
+(* ------------------------------------------------------------------------- *)
 (** * (J7) real data: S1, S2 are the prefix sums of a list and of its squares *)
 (* ------------------------------------------------------------------------- *)
 
@@ -552,6 +653,9 @@ Print Assumptions l2_optim_le_fixed.
 Print Assumptions l2_split.
 Print Assumptions gvar_optim_le_fixed.
 Print Assumptions gvar_split.
+Print Assumptions l2_saving_subadditive.
+Print Assumptions gvar_cost_saving_subadditive.
+Print Assumptions gvar_split_can_fail_at_the_floor.
 
 (** NOTE on axioms.  The four L2/CUSUM theorems above depend only on the axioms of the
     stdlib reals.  The two Gaussian theorems additionally list [Classical_Prop.classic]:
